@@ -120,6 +120,7 @@ class Env:
         self.fn = fn
         self.ret_result = ret_result
         self.sites = PANIC_SITES if sites is None else sites
+        self.panic_prefix = 'PanicSite'
         self.pre = []           # statements a value computation needs in front of it (shared)
         self.loop = None        # inside a translated loop: {'brk': bool, 'ret': bool}
         self.vars = {}          # name -> {'kind': 'V'|'R', 'mut': bool, 'alias': None|field}
@@ -134,10 +135,11 @@ class Env:
         key = (self.fn, what, k)
         if key not in self.sites:
             raise TranslateError(f'{self.fn}: a new panic site `{what}` #{k} appeared in the source')
-        return 'PanicSite.' + self.sites[key]
+        return self.panic_prefix + '.' + self.sites[key]
 
     def child(self):
         e = Env(self.fn, self.ret_result, self.sites)
+        e.panic_prefix = self.panic_prefix
         e.vars = dict(self.vars)
         e.pre = self.pre
         e.loop = self.loop
@@ -153,6 +155,8 @@ class Tr:
     SELF_SETTERS = SELF_SETTERS
     FIELD_RENAME = FIELD_RENAME
     SKIP_PARAMS = ('stream',)
+    RES = 'Res'              # the three-way result type of the unit
+    PANIC = 'PanicSite'      # its panic-site type
 
     def __init__(self, fn_specs):
         self.specs = fn_specs    # rust name -> dict(lean, params, ret_lean, ret_result)
@@ -170,6 +174,9 @@ class Tr:
         return None
 
     def leaf_effect(self, e, env):
+        return None
+
+    def leaf_expr(self, e, env):
         return None
 
     def take_pre(self, env, ind):
@@ -197,6 +204,8 @@ class Tr:
         if k == 'bind':
             _, name, by_ref, is_mut = p
             env.vars[name] = {'kind': scrut_kind if top else 'V', 'mut': is_mut and not by_ref, 'alias': None}
+            if is_mut and not by_ref and not top:
+                env.mut_binds = getattr(env, 'mut_binds', []) + [name]
             return lname(name)
         if k == 'plit':
             return str(p[1])
@@ -217,9 +226,9 @@ class Tr:
             if segs == ['Some']:
                 return f'some {paren(self.pat(subs[0], env, "V", False))}'
             if segs == ['Ok']:
-                return f'Res.ok {paren(self.pat(subs[0], env, "V", False))}'
+                return f'{self.RES}.ok {paren(self.pat(subs[0], env, "V", False))}'
             if segs == ['Err']:
-                return f'Res.err {paren(self.pat(subs[0], env, "V", False))}'
+                return f'{self.RES}.err {paren(self.pat(subs[0], env, "V", False))}'
             if segs[-2:] == ['Error', 'WriteBufferFull']:
                 q = subs[0]
                 if q[0] == 'tstruct' and q[1][-2:] == ['Message', 'Frame'] and len(q[2]) == 1:
@@ -232,7 +241,7 @@ class Tr:
         self.fail(env, f'pattern form {k}')
 
     def irrefutable(self, p):
-        return p[0] in ('wild', 'bind')
+        return p[0] in ('wild', 'bind') or (p[0] == 'ptuple' and all(self.irrefutable(q) for q in p[1]))
 
     # ------------------------------------------------------------ effects
     def has_effect(self, e, env):
@@ -319,6 +328,9 @@ class Tr:
         return t
 
     def classify(self, e, env):
+        h = self.leaf_expr(e, env)
+        if h is not None:
+            return h
         k = e[0]
         if k == 'lit':
             if e[1] == 'num':
@@ -431,9 +443,9 @@ class Tr:
         segs = f[1]
         name = '::'.join(segs)
         if name == 'Ok':
-            return 'R', f'Res.ok {paren(self.v(args[0], env))}'
+            return 'R', f'{self.RES}.ok {paren(self.v(args[0], env))}'
         if name == 'Err':
-            return 'R', f'Res.err {paren(self.v(args[0], env))}'
+            return 'R', f'{self.RES}.err {paren(self.v(args[0], env))}'
         if name == 'Some':
             return 'V', f'some {paren(self.v(args[0], env))}'
         if name == 'replace':
@@ -696,7 +708,7 @@ class Tr:
                  f'def {name}{gen}{binders} : Nat → M (LoopOut {paren(self.loop_break_type(env)) if kind == "loop" else "Unit"} {paren(ret_t)})']
         call_args = ''.join(f' {lname(v)}' for v in names)
         if kind == 'loop':
-            lines.append('  | 0 => panicAt PanicSite.fuel')
+            lines.append(f'  | 0 => panicAt {self.PANIC}.fuel')
             lines.append('  | fuel + 1 => do')
             lines += self.seq(body, henv, 'unit', '    ')
             lines.append(f'    {name}{call_args} fuel')
@@ -704,7 +716,7 @@ class Tr:
             cond0 = self.v(e[1], henv)
             lines.append('  | 0 => do')
             lines.append(f'    if {cond0} then')
-            lines.append('      panicAt PanicSite.fuel')
+            lines.append(f'      panicAt {self.PANIC}.fuel')
             lines.append('    else')
             lines.append('      pure (LoopOut.brk ())')
             lines.append('  | fuel + 1 => do')
@@ -863,6 +875,8 @@ class Tr:
                 return [f'{ind}{t}']
             return [f'{ind}pure {paren(t)}']
         # mode == 'ret', function returns Result
+        if k == 'call' and e[1] == ('path', ['Ok']) and e[2][0][0] in ('if', 'match', 'block') and self.has_effect(e[2][0], env):
+            return self.ctl(e[2][0], env, 'val', ind)
         if k == 'call' and e[1] == ('path', ['Ok']):
             t = paren(self.v(e[2][0], env))
             return self.take_pre(env, ind) + [f'{ind}pure {t}']
@@ -1012,19 +1026,22 @@ class Tr:
             sub = env.child()
             lp = self.pat(p, sub, skind)
             out.append(f'{ind}| {lp} =>')
+            for mb in getattr(sub, 'mut_binds', []):
+                out.append(f'{ind}  let mut {lname(mb)} := {lname(mb)}')
+            sub.mut_binds = []
             out += self.seq(self.as_block(b), sub, mode, ind + '  ')
             env.fresh = max(env.fresh, sub.fresh)
         covered, need_panic = self.exhaustive(arms, skind)
         if need_panic:
-            out.append(f'{ind}| Res.panic __p => panicAt __p')
+            out.append(f'{ind}| {self.RES}.panic __p => panicAt __p')
         elif not covered:
             # unreachable: the Rust match is exhaustive
-            out.append(f'{ind}| _ => panicAt PanicSite.fuel')
+            out.append(f'{ind}| _ => panicAt {self.PANIC}.fuel')
         return out
 
     def chain(self, arms, st, skind, env, mode, ind):
         if not arms:
-            return [f'{ind}panicAt PanicSite.fuel']
+            return [f'{ind}panicAt {self.PANIC}.fuel']
         if all(g is None for _, g, _ in arms):
             return self.plain_match(arms, st, skind, env, mode, ind)
         (p, g, b), rest = arms[0], arms[1:]
